@@ -17,6 +17,7 @@
 
    At commit an object whose write bit is set writes json.dumps(value); otherwise the column keeps its old text. *)
 Require Import PonyV.Base.PyBase PonyV.Base.Seg.
+#[local] Open Scope Z_scope.
 
 Definition key := list Z.                      (* str as code points *)
 
